@@ -2,6 +2,7 @@ package filters
 
 import (
 	"bytes"
+	"fmt"
 	"io"
 
 	"golang.org/x/image/ccitt"
@@ -21,6 +22,15 @@ func CCITTFaxDecode(data []byte, params Params) ([]byte, error) {
 	rows := getIntParam(params, "Rows", 0)
 	k := getIntParam(params, "K", 0)
 	blackIs1 := getBoolParam(params, "BlackIs1", false)
+
+	// A row of zero pixels consumes no input: with Columns 0 the decoder
+	// would produce empty rows forever (or Rows times).
+	if columns < 1 {
+		return nil, fmt.Errorf("CCITTFaxDecode: invalid Columns %d", columns)
+	}
+	if rows < 0 {
+		return nil, fmt.Errorf("CCITTFaxDecode: invalid Rows %d", rows)
+	}
 
 	// Determine subformat from K parameter
 	// K < 0: pure Group 4
